@@ -135,6 +135,35 @@ let eval (prim : string) (p : int list) (ops : string list) : string =
       | _ -> failwith "counter cycle") ops in
     let outs = counter_run cfg cfg.cc_reset tr in
     String.concat " " (List.map (fun (((v, l), f), bf) -> hex_of_n v ^ "," ^ hb l ^ "," ^ hb f ^ "," ^ hb bf) outs)
+  | "cntv" ->
+    (* cntv ctor E rv bind scope ldkind : inc,dec,en,load,loadValue[,end] *)
+    let bind = pn 3 in
+    let u = { cu_inc = (bind land 1 <> 0); cu_dec = (bind land 2 <> 0); cu_scope = pN 4; cu_ldkind = pN 5 } in
+    let never = counter_never u in
+    let cfg = match pn 0 with
+      | 0 -> counter_cfg_end (pN 1) (pN 2) never
+      | 1 -> counter_cfg_w (pN 1) (pN 2) never
+      | _ -> counter_cfg_dyn (pN 1) (pN 2) never in
+    let static_end = match pn 0 with
+      | 0 -> pN 1
+      | 1 -> n_of_bitlist (List.init (pn 1 + 1) (fun i -> i = pn 1))
+      | _ -> N0 in
+    let tr = List.map (fun c ->
+      match split_on ',' c with
+      | i :: d :: e :: l :: lv :: rest ->
+        counter_use_in cfg u (bool_of_hex i) (bool_of_hex d) (bool_of_hex e) (bool_of_hex l) (n_of_hex lv)
+          (match rest with [ en ] -> n_of_hex en | _ -> static_end)
+      | _ -> failwith "cntv cycle") ops in
+    let outs = counter_run cfg cfg.cc_reset tr in
+    String.concat " " (List.map (fun (((v, l), f), bf) -> hex_of_n v ^ "," ^ hb l ^ "," ^ hb f ^ "," ^ hb bf) outs)
+  | "adder" -> hex_of_n (adder_run (pN 0) (List.map n_of_hex ops))
+  | "thermom" -> hex_of_n (m_thermow (pnat 0) (pnat 1) (o 0))
+  | "crcmx" ->
+    let prm = { cp_w = pN 0; cp_poly = o 0; cp_init = o 1; cp_xorout = o 2;
+                cp_revdata = bool_of_hex (List.nth ops 3); cp_revcrc = bool_of_hex (List.nth ops 4) } in
+    let ws = List.filteri (fun i _ -> i >= 5) ops in
+    let widths = List.tl p in
+    hex_of_n (crc_state_run_mixed prm (List.map2 (fun d w -> (n_of_int d, n_of_hex w)) widths ws))
   | "updown" ->
     let tr = List.map (fun c -> match split_on ',' c with
       | [ i; d; r ] -> ((bool_of_hex i, bool_of_hex d), bool_of_hex r) | _ -> failwith "updown cycle") ops in
